@@ -269,11 +269,62 @@ func runC08(c *Ctx) {
 			}
 		}
 	}
+	// ---------- the answer follows the key lists AS THEY ARE NOW: query, rotate keys (same number of keys), query again
+	{
+		oc := jwt.NewOperatorClaims(O)
+		oc.SigningKeys.Add(S, X)
+		ac := jwt.NewAccountClaims(A)
+		ac.SigningKeys.Add(K1)
+		us := jwt.NewUserScope()
+		us.Key = K2
+		ac.SigningKeys.AddScopedSigner(us)
+		pool := []string{S, X, O2, A, K1, K2, AX, B}
+		for step := 0; step < 40; step++ {
+			for _, iss := range pool {
+				oclaim := mkClaim("account", iss, A, "")
+				gotO, wantO := oc.DidSign(oclaim), iss == O || contains(oc.SigningKeys, iss)
+				uclaim := mkClaim("user", iss, U, A)
+				gotA, wantA := ac.DidSign(uclaim), iss == A || contains(ac.SigningKeys.Keys(), iss)
+				c.sum.Evaluations++
+				c.sum.ImplChecks++
+				if gotO != wantO {
+					c.violation("operator DidSign does not follow the signing keys as they are now (after keys were rotated)",
+						map[string]interface{}{"entity": "operator", "step": step, "issuer": nameOf(iss, S, X, O2, A, K1, K2, AX, B), "impl": gotO, "spec": wantO, "keys_now": len(oc.SigningKeys)})
+				}
+				if gotA != wantA {
+					c.violation("account DidSign does not follow the signing keys as they are now (after keys were rotated)",
+						map[string]interface{}{"entity": "account", "step": step, "issuer": nameOf(iss, S, X, O2, A, K1, K2, AX, B), "impl": gotA, "spec": wantA, "keys_now": len(ac.SigningKeys)})
+				}
+				wo.add(fmt.Sprintf("(%s, false, %s, %s, %s)", coqStr(O), coqStrList(oc.SigningKeys), claimCoq("account", iss, A, ""), coqBool(gotO)), map[string]interface{}{"step": step})
+				wa.add(fmt.Sprintf("(%s, %s, %s, %s)", coqStr(A), coqStrList(ac.SigningKeys.Keys()), claimCoq("user", iss, U, A), coqBool(gotA)), map[string]interface{}{"step": step})
+			}
+			// rotate: one key out, another in (the number of keys stays the same); sometimes overwrite in place
+			switch c.Rng.Intn(3) {
+			case 0:
+				if len(oc.SigningKeys) > 0 {
+					out := oc.SigningKeys[c.Rng.Intn(len(oc.SigningKeys))]
+					oc.SigningKeys.Remove(out)
+					oc.SigningKeys.Add(pool[c.Rng.Intn(3)])
+				}
+			case 1:
+				if len(oc.SigningKeys) > 0 {
+					oc.SigningKeys[c.Rng.Intn(len(oc.SigningKeys))] = pool[c.Rng.Intn(3)]
+				}
+			default:
+				ks := ac.SigningKeys.Keys()
+				if len(ks) > 0 {
+					ac.SigningKeys.Remove(ks[c.Rng.Intn(len(ks))])
+					ac.SigningKeys.Add(pool[4+c.Rng.Intn(3)])
+				}
+			}
+			c.count("key_rotation_steps")
+		}
+	}
 	wo.flush()
 	wa.flush()
 	c.sum.Exhaustive = true
 	c.sum.DistinctNontriv = len(distinct)
-	c.sum.Rule = "full cross product: operator {strict} x {identity key also listed} x {signing keys or none} x {before/after encode-decode} x issuer {identity, listed key, unlisted operator key, other operator, account key} x 7 claim kinds x subject {self, other} x issuer-account {empty, set}; account {keys or none} x {round trip} x issuer {identity, plain key, scoped key, unlisted, other account, operator} x 7 kinds x issuer-account {empty, this, other} x subject; real nkeys and claims objects; user / activation claims additionally arriving as v2 and as v1 tokens (all signer x issuer-account combinations); non-trivial = distinct combination of the decision-relevant coordinates and answer"
+	c.sum.Rule = "full cross product: operator {strict} x {identity key also listed} x {signing keys or none} x {before/after encode-decode} x issuer {identity, listed key, unlisted operator key, other operator, account key} x 7 claim kinds x subject {self, other} x issuer-account {empty, set}; account {keys or none} x {round trip} x issuer {identity, plain key, scoped key, unlisted, other account, operator} x 7 kinds x issuer-account {empty, this, other} x subject; real nkeys and claims objects; one operator and one account queried again and again while their signing keys are rotated (same count) or overwritten in place; user / activation claims additionally arriving as v2 and as v1 tokens (all signer x issuer-account combinations); non-trivial = distinct combination of the decision-relevant coordinates and answer"
 }
 
 func nameOf(v string, names ...string) string {
